@@ -27,9 +27,14 @@ def _world(prints: bool = False) -> Tuple[R.World, Dict[str, R.ADef]]:
     w = R.World()
     C = R.ADef(w, "ns.C", 1, 0)
     B = R.ADef(w, "ns.B", 1, 0, deps=[C])
-    A = R.ADef(w, "ns.A", 1, 1, deps=[B])
+    A = R.ADef(w, "ns.A", 1, 1, deps=[B], fixed_port_id=100)
     d = {
         "A": A, "B": B, "C": C,
+        # unreferenced definitions in the targets' own root namespace that *look* related by their file names alone: the same
+        # fixed port-ID as a target (valid, and broken), the same short name in a sub-namespace
+        "N100": R.ADef(w, "ns.sub.Neighbour", 1, 0, fixed_port_id=100),
+        "N100bad": R.ADef(w, "ns.sub.Broken", 1, 0, fixed_port_id=100, fail="DSDLSyntaxError"),
+        "SubA": R.ADef(w, "ns.sub.A", 1, 1),
         "A10": R.ADef(w, "ns.A", 1, 0),  # an older minor version of a target, not referenced
         "A20": R.ADef(w, "ns.A", 2, 0),
         "B11": R.ADef(w, "ns.B", 1, 1),  # a newer minor version of a dependency, not referenced
